@@ -336,7 +336,7 @@ Proof.
       destruct (nth_error (i_ws V s1) w) as [[j|x]|] eqn:E; auto.
       pose proof (Cl _ _ E). rewrite nth_error_firstn. apply Nat.ltb_lt in H0. rewrite H0. auto.
     + rewrite firstn_length. rewrite Ha. lia.
-  - destruct (grow_pres s (n - length (i_arr V s)) I) as [I2 D]. repeat split; auto.
+  - destruct (grow_pres s (n - length (i_arr V s)) I) as [I2 D]. split; [exact I2|]. split; [exact D|].
     simpl. rewrite app_length, repeat_length. lia.
 Qed.
 
@@ -349,5 +349,124 @@ Proof.
   - destruct (set_len_pres s (S i) I) as [I1 [D1 L1]].
     destruct (put_raw_pres (set_len s (S i)) i v I1) as [A [B _]]; [lia|].
     split; auto. intros w Hw. rewrite B; auto. rewrite D1; auto.
+Qed.
+
+Definition is_swap (o : pop V U) : bool := match o with PSwap _ _ => true | _ => false end.
+
+Lemma istep_pres : forall s o w, inv s -> is_swap o = false ->
+  inv (fst (istep s o)) /\ (Model.touches V U s w o = false -> wdenote s w <> None -> wdenote (fst (istep s o)) w = wdenote s w).
+Proof.
+  intros s o w I NS. destruct o; simpl in NS; try discriminate; simpl.
+  - (* PGet *)
+    destruct (Nat.ltb_spec i (length (i_arr V s))); [|split; auto].
+    destruct (nth_error (i_cache V s) i) as [[w0|]|] eqn:E; simpl; [split; auto| |].
+    + destruct I as [L [B C]].
+      assert (Hi : i < length (i_cache V s)) by lia.
+      split; [split; [|split]|]; simpl.
+      * rewrite upd_length. auto.
+      * intros j w'. rewrite nth_upd. destruct (Nat.eqb_spec i j).
+        { subst. apply Nat.ltb_lt in Hi. rewrite Hi. intro X. inversion X; subst.
+          rewrite nth_error_app2 by lia. rewrite Nat.sub_diag. reflexivity. }
+        intro X. pose proof (B _ _ X). rewrite nth_error_app1; auto. eapply nth_some_lt; eauto.
+      * intros w' j X. destruct (Nat.lt_ge_cases w' (length (i_ws V s))).
+        { rewrite nth_error_app1 in X by auto. pose proof (C _ _ X) as Y.
+          rewrite nth_upd. destruct (Nat.eqb_spec i j); auto. subst. congruence. }
+        rewrite nth_error_app2 in X by auto. destruct (w' - length (i_ws V s)) eqn:D; simpl in X.
+        { inversion X; subst. assert (w' = length (i_ws V s)) by lia. subst. apply nth_upd_same. auto. }
+        destruct n; discriminate.
+      * intros _ Hw. unfold Model.wdenote in *. simpl.
+        destruct (nth_error (i_ws V s) w) eqn:Ew; [|congruence].
+        rewrite nth_error_app1 by (eapply nth_some_lt; eauto). rewrite Ew. reflexivity.
+    + exfalso. destruct I as [L _]. apply nth_error_None in E. lia.
+  - (* PPut *) destruct (put_pres s i v I) as [A B]. split; auto.
+  - (* PPutH *) destruct (put_pres s i (match Model.hdenote V s k with Some v => v | None => zero end) I) as [A B].
+    split; auto.
+  - (* PDel *)
+    destruct (Nat.ltb_spec i (length (i_arr V s))); [|split; auto].
+    destruct (put_raw_pres s i zero I H) as [A [B _]]. split; auto.
+  - (* PLen *) destruct (set_len_pres s n I) as [A [B _]]. split; auto.
+  - (* PGoPut *)
+    destruct I as [L [B C]]. split; [split; [|split]|]; simpl; auto.
+    + rewrite upd_length. auto.
+    + intros T Hw. unfold Model.wdenote in *. simpl.
+      destruct (nth_error (i_ws V s) w) as [[j|x]|] eqn:Ew; auto.
+      rewrite nth_upd_other; auto. intro; subst. rewrite Nat.eqb_refl in T. discriminate.
+  - (* PWriteH *)
+    destruct (nth_error (i_hs V s) k) as [[w0|]|] eqn:Eh; [|split; auto|split; auto].
+    destruct (nth_error (i_ws V s) w0) as [[i|x]|] eqn:E0; [| |split; auto].
+    + destruct (nth_error (i_arr V s) i) as [v|] eqn:Ea; [|split; auto].
+      destruct I as [L [B C]]. split; [split; [|split]|]; simpl; auto.
+      * rewrite upd_length. auto.
+      * intros T Hw. unfold Model.wdenote in *. simpl.
+        destruct (nth_error (i_ws V s) w) as [[j|y]|] eqn:Ew; auto.
+        rewrite nth_upd_other; auto. intro; subst.
+        pose proof (C _ _ Ew) as X1. pose proof (C _ _ E0) as X2. rewrite X1 in X2. inversion X2; subst.
+        rewrite Nat.eqb_refl in T. discriminate.
+    + destruct I as [L [B C]].
+      assert (Hw0 : w0 < length (i_ws V s)) by (eapply nth_some_lt; eauto).
+      split; [split; [|split]|]; simpl; auto.
+      * intros j w' X. pose proof (B _ _ X) as Y. rewrite nth_upd. destruct (Nat.eqb_spec w0 w'); auto.
+        subst. congruence.
+      * intros w' j. rewrite nth_upd. destruct (Nat.eqb_spec w0 w').
+        { destruct (Nat.ltb w0 (length (i_ws V s))); discriminate. }
+        apply C.
+      * intros T Hw. unfold Model.wdenote in *. simpl. rewrite nth_upd_other; auto.
+        intro; subst. rewrite Nat.eqb_refl in T. discriminate.
+  - (* PReadH *) split; auto.
+  - (* PDump *) split; auto.
+Qed.
+
+Lemma wdenote_defined_stays : forall s o w, inv s -> is_swap o = false ->
+  Model.touches V U s w o = false -> wdenote s w <> None -> wdenote (fst (istep s o)) w <> None.
+Proof. intros. destruct (istep_pres s o w H H0) as [_ D]. rewrite D; auto. Qed.
+
+Fixpoint noswap (ops : list (pop V U)) : bool :=
+  match ops with [] => true | o :: r => negb (is_swap o) && noswap r end.
+
+Lemma irun_cons : forall s o r,
+  fst (Model.irun V zero U app s (o :: r)) = fst (Model.irun V zero U app (fst (istep s o)) r).
+Proof.
+  intros. simpl. destruct (istep s o) as [s1 x]. simpl.
+  destruct (Model.irun V zero U app s1 r). reflexivity.
+Qed.
+
+Lemma inv_init : forall l, inv (Model.iinit V l).
+Proof.
+  intros. unfold Model.iinit, Model.inv. simpl. split; [apply repeat_length|]. split.
+  - intros i w H. apply repeat_nth_some in H. discriminate.
+  - intros w i H. destruct w; discriminate.
+Qed.
+
+Lemma inv_run : forall ops s, inv s -> noswap ops = true -> inv (fst (Model.irun V zero U app s ops)).
+Proof.
+  induction ops; intros s I N.
+  - simpl. auto.
+  - rewrite irun_cons. simpl in N. apply andb_prop in N. destruct N as [N1 N2].
+    apply IHops; auto. apply (istep_pres s a 0 I). destruct (is_swap a); auto; discriminate.
+Qed.
+
+Lemma stable_run : forall ops s w, inv s -> noswap ops = true ->
+  Model.untouched V zero U app s w ops = true -> wdenote s w <> None ->
+  wdenote (fst (Model.irun V zero U app s ops)) w = wdenote s w.
+Proof.
+  induction ops; intros s w I N T Hw.
+  - reflexivity.
+  - rewrite irun_cons. simpl in N, T. apply andb_prop in N. destruct N as [N1 N2].
+    apply andb_prop in T. destruct T as [T1 T2].
+    assert (NS : is_swap a = false) by (destruct (is_swap a); auto; discriminate).
+    assert (TT : Model.touches V U s w a = false) by (destruct (Model.touches V U s w a); auto; discriminate).
+    destruct (istep_pres s a w I NS) as [I1 D1].
+    rewrite IHops; auto. rewrite D1; auto.
+Qed.
+
+(* write-through: a Live wrapper's write lands in the Go slice at its slot (live view of elements) *)
+Lemma write_through_live : forall s k u w i v,
+  nth_error (i_hs V s) k = Some (Some w) -> nth_error (i_ws V s) w = Some (Live i) ->
+  nth_error (i_arr V s) i = Some v ->
+  nth_error (i_arr V (fst (istep s (PWriteH k u)))) i = Some (app u v) /\ wdenote (fst (istep s (PWriteH k u))) w = Some (app u v).
+Proof.
+  intros s k u w i v Hk Hw Ha. simpl. rewrite Hk, Hw, Ha. simpl.
+  assert (i < length (i_arr V s)) by (eapply nth_some_lt; eauto).
+  split; [apply nth_upd_same; auto|]. unfold Model.wdenote. simpl. rewrite Hw. apply nth_upd_same; auto.
 Qed.
 End SliceProofs.
